@@ -402,3 +402,127 @@ def one_name(ctx, rule, fa, pred, what):
                key=f"{rule}|{fa.fi.qualname}|missing-local|{what}")
         return None
     return ns[0]
+
+
+# ------------------------------------------------------------------------------------------------ overrides refine, never weaken
+def _is_super_call(node, method):
+    """super().method(...) — optionally awaited"""
+    if isinstance(node, ast.Await):
+        node = node.value
+    return (isinstance(node, ast.Call) and isinstance(node.func, ast.Attribute) and node.func.attr == method
+            and isinstance(node.func.value, ast.Call) and isinstance(node.func.value.func, ast.Name) and node.func.value.func.id == "super")
+
+
+def _forwards_all(call, params):
+    """the super call hands on every own parameter unchanged: positionally in order, or as NAME=NAME"""
+    if isinstance(call, ast.Await):
+        call = call.value
+    pos = [dotted(a) for a in call.args]
+    if pos != params[:len(pos)]:
+        return False
+    rest = params[len(pos):]
+    kws = {k.arg: dotted(k.value) for k in call.keywords}
+    return set(kws) == set(rest) and all(kws[r] == r for r in rest)
+
+
+def override_refines(ctx, rule, base_qualname, method, mode, what, floor=1, skip=()):
+    """OVERRIDE: every subclass of `base` that overrides `method` keeps the base behaviour as a component.
+       and-super      every returned value is super().method() or a conjunction with it (a predicate may only become stricter)
+       forward        every returned value is super().method(<all own parameters, unchanged>)
+       super-toplevel an unconditional (top-level) statement of the body is super().method(<all own parameters>)"""
+    prog = ctx.prog
+    base = prog.cls(base_qualname)
+    n = 0
+    for sub in sorted(prog.subclasses(base), key=lambda c: c.qualname):
+        q = f"{sub.qualname}.{method}"
+        if sub.qualname in skip or not prog.has_func(q):
+            continue
+        fa = ctx.fa(q)
+        own = [p for p in fa.fi.params() if p not in ("self", "cls")]
+        rebound = [x for x in ast.walk(fa.fi.node) if isinstance(x, ast.Name) and x.id in own and isinstance(x.ctx, (ast.Store, ast.Del))]
+        n += 1
+        if mode in ("and-super", "forward"):
+            rets = fa.stmts(ast.Return)
+            ok = bool(rets) and not rebound
+            for r in rets:
+                v = r.value
+                if mode == "and-super":
+                    parts = v.values if isinstance(v, ast.BoolOp) and isinstance(v.op, ast.And) else [v]
+                    ok = ok and any(_is_super_call(p, method) and _forwards_all(p, own) for p in parts)
+                else:
+                    ok = ok and v is not None and _is_super_call(v, method) and _forwards_all(v, own)
+            ctx.ob(rule, ok, fa.site(), f"{sub.name}.{method}: {what}", func=q, key=f"{rule}|{q}|{mode}",
+                   detail="" if ok else ("a parameter is rebound before it is handed on" if rebound else "a return value does not contain super()." + method + "(<all own parameters>)"))
+        else:
+            if mode == "super-toplevel":
+                ok = False
+                for st in fa.fi.node.body:
+                    v = st.value if isinstance(st, (ast.Expr, ast.Return)) else None
+                    if v is not None and _is_super_call(v, method) and _forwards_all(v, own):
+                        ok = True
+                        break
+                    if isinstance(st, (ast.Return, ast.Raise)):
+                        break
+            else:
+                raise ValueError(mode)
+            ctx.ob(rule, bool(ok) and not rebound, fa.site(), f"{sub.name}.{method}: {what}", func=q, key=f"{rule}|{q}|{mode}")
+    ctx.floor(rule, f"overrides of {base.name}.{method}", n, floor)
+    return n
+
+
+def executor_jobs_awaited(ctx, rule, qualnames, what, floor=1):
+    """AWAIT: a job handed to loop.run_in_executor is awaited where it is started (or its future is returned to the caller) —
+    otherwise the coroutine that started it completes, and everything chained on it runs, while the job is still queued"""
+    n = 0
+    for q in qualnames:
+        fa = ctx.fa(q)
+        for c in fa.calls(name="run_in_executor"):
+            n += 1
+            par = next((p for p in ast.walk(fa.fi.node) if any(ch is c for ch in ast.iter_child_nodes(p))), None)
+            ok = isinstance(par, (ast.Await, ast.Return))
+            ctx.ob(rule, ok, fa.site(c), what, func=q, key=f"{rule}|{q}|executor-awaited",
+                   detail="" if ok else "the future returned by run_in_executor is dropped: the job is not finished when this coroutine returns")
+    ctx.floor(rule, "run_in_executor job", n, floor)
+    return n
+
+
+def ctor_stores(ctx, rule, qualname, fields, what, defaults=None):
+    """STORE: the constructor keeps what it is given — `self.<field> = <parameter>` once, unconditionally, the bare parameter (no `or default`,
+    no conversion: those conflate 0 / None / '' or change the value that is later serialised).  defaults: {param: python literal} the signature must carry."""
+    fa = ctx.fa(qualname)
+    params = fa.fi.params()
+    top = {id(s) for s in fa.fi.node.body}
+    for field, param in fields.items():
+        ws = [s for s in fa.stmts(ast.Assign) if any(unparse(t) == f"self.{field}" for t in s.targets)] + \
+             [s for s in fa.stmts(ast.AnnAssign) if unparse(s.target) == f"self.{field}" and s.value is not None]
+        rebound = [x for x in ast.walk(fa.fi.node) if isinstance(x, ast.Name) and x.id == param and isinstance(x.ctx, (ast.Store, ast.Del))]
+        ok = len(ws) == 1 and id(ws[0]) in top and dotted(ws[0].value) == param and param in params and not rebound
+        ctx.ob(rule, ok, fa.site(ws[0]) if ws else fa.site(), f"{fa.fi.cls.name if fa.fi.cls else ''}.{field} is exactly the `{param}` argument — {what}", func=qualname,
+               key=f"{rule}|{qualname}|store|{field}", detail="" if ok else f"found: {[unparse(w) for w in ws]}")
+    if defaults:
+        a = fa.fi.node.args
+        pos = a.posonlyargs + a.args
+        dmap = {p.arg: d for p, d in zip(pos[len(pos) - len(a.defaults):], a.defaults)}
+        dmap.update({p.arg: d for p, d in zip(a.kwonlyargs, a.kw_defaults) if d is not None})
+        for p, want in defaults.items():
+            d = dmap.get(p)
+            try:
+                got = ast.literal_eval(d) if d is not None else "<none>"
+            except Exception:
+                got = "<not a literal>"
+            ctx.ob(rule, got == want, fa.site(), f"default of `{p}` is {want!r}", func=qualname, key=f"{rule}|{qualname}|default|{p}", detail="" if got == want else f"found {got!r}")
+
+
+def ordered_calls(fa):
+    """the function's own Call nodes in evaluation-like (tree, depth-first, arguments before the call that consumes them is NOT modelled) order"""
+    out = []
+
+    def dfs(n):
+        for ch in ast.iter_child_nodes(n):
+            if isinstance(ch, FUNC_NODES + (ast.Lambda, ast.ClassDef)):
+                continue
+            if isinstance(ch, ast.Call):
+                out.append(ch)
+            dfs(ch)
+    dfs(fa.fi.node)
+    return out
